@@ -50,7 +50,8 @@ def check(prog: Program, tier: str) -> Result:
             "(contradiction rule over call sites); (R4.f) every literal replace template only uses wildcards its find "
             "template binds, and find templates parse; (R4.g) explicit raise/assert statements known to be reachable "
             "on valid input; (R4.h) the rollback back-ends hand only validated texts to functions that parse their "
-            "argument. Not decided: index arithmetic on runtime text, time bounds, third-party code."),
+            "argument; (R4.i) keyless orderings of tuples that can hold None (alias.asname, ImportFrom.module) - None < str raises. "
+            "Not decided: index arithmetic on runtime text, time bounds (regex backtracking), third-party code."),
         rule_text="instances = evaluator sites, yields of rule generators, recursive calls, loops, signal call sites, find/replace template pairs, raise/assert statements",
     )
     res.trusted_base = ["CPython ast, builtins exception hierarchy", "sa/pathcond.py", "table of while loops confirmed by reading (WHILE_TABLE)",
@@ -65,7 +66,8 @@ def check(prog: Program, tier: str) -> Result:
     _r4_f(prog, res)
     _r4_g(prog, res)
     _r4_h(prog, res)
-    res.floors.update({"R4.a": 25, "R4.b": 200, "R4.c": 4, "R4.d": 18, "R4.e": 8, "R4.f": 40, "R4.h": 2})
+    _r4_i(prog, res)
+    res.floors.update({"R4.a": 25, "R4.b": 200, "R4.c": 4, "R4.d": 18, "R4.e": 8, "R4.f": 40, "R4.h": 2, "R4.i": 2})
     return res
 
 
@@ -435,6 +437,64 @@ def _r4_d(prog: Program, res: Result) -> None:
                 res.undecided("R4.d", fn.loc(w), fn.fq, text, "new while loop without a recognised variant")
 
 
+# ------------------------------------------------------------------------------------------------ R4.i
+OPTIONAL_STR_ATTRS = {"asname", "module", "type_comment", "kind"}    # Optional[str] fields of ast nodes
+
+
+def _maybe_none(x: ast.AST) -> bool:
+    if isinstance(x, ast.Constant):
+        return x.value is None
+    if isinstance(x, ast.Attribute):
+        return x.attr in OPTIONAL_STR_ATTRS
+    if isinstance(x, ast.IfExp):
+        return _maybe_none(x.body) or _maybe_none(x.orelse)
+    return False
+
+
+def _r4_i(prog: Program, res: Result) -> None:
+    """Ordering tuples that can hold None: `sorted(S)` / `min` / `max` / `.sort()` without a key compares the tuples
+    component by component, and `None < "x"` raises TypeError as soon as two tuples agree on the components before.
+    Instance: a keyless ordering of a collection whose elements are built in the same function as tuples with a
+    component read from an Optional[str] field of an ast node (alias.asname, ImportFrom.module) or a literal None."""
+    from .c06 import _tuple_arity, _key_components
+    n = 0
+    for fn in prog.funcs.values():
+        for c in prog.calls_in(fn):
+            if not (isinstance(c.func, ast.Name) and c.func.id in ("sorted", "min", "max") and len(c.args) == 1):
+                continue
+            built = _tuple_arity(c.args[0], fn)
+            if built is None or not any(_maybe_none(x) for x in built.elts):
+                continue
+            n += 1
+            opt = [i for i, x in enumerate(built.elts) if _maybe_none(x)]
+            key = next((k.value for k in c.keywords if k.arg == "key"), None)
+            text = f"{c.func.id}({short(c.args[0], 40)}" + (f", key={short(key, 50)})" if key is not None else ")")
+            if key is None:
+                res.bad("R4.i", fn.loc(c), fn.fq, text,
+                        f"the elements are tuples {short(built, 60)} whose component(s) {opt} can be None; without a key two tuples that agree before "
+                        "that component compare None with a str: TypeError out of the formatter")
+                continue
+            comps = _key_components(prog, fn, key)
+            if comps is None:
+                res.undecided("R4.i", fn.loc(c), fn.fq, text, "sort key not analysable")
+                continue
+            # a bare optional component is fine only behind a component that separates None from str (`t[i] is not None`)
+            ok = True
+            body = key.body if isinstance(key, ast.Lambda) else None
+            if body is not None and ("*" in comps or any(i in comps for i in opt)):
+                parts = body.elts if isinstance(body, ast.Tuple) else [body]
+                p = key.args.args[0].arg
+                for i in opt:
+                    bare_at = next((j for j, x in enumerate(parts) if norm(x) in (f"{p}[{i}]", p)), None)
+                    guard_at = next((j for j, x in enumerate(parts) if norm(x) in (f"{p}[{i}] is not None", f"{p}[{i}] is None", f"{p}[{i}] or ''")), None)
+                    if bare_at is not None and (guard_at is None or guard_at > bare_at):
+                        ok = False
+            res.decide(ok, "R4.i", fn.loc(c), fn.fq, text,
+                       "None is separated from str by an `is not None` component in front of the optional component" if ok else
+                       f"the key compares the optional component(s) {opt} directly: None < str raises TypeError")
+    res.analysed["orderings_of_tuples_with_optional_components"] = n
+
+
 # ------------------------------------------------------------------------------------------------ R4.e / R4.g
 def _explicit_raises(fn: Func) -> List[Tuple[ast.AST, str]]:
     out = []
@@ -691,6 +751,11 @@ class ValidPA(PathAnalysis):
 from ..selftest import Variant  # noqa: E402
 
 VARIANTS = [
+    Variant("alias-pairs-sorted-without-key", "FIRE", "fixes",
+            "        names = sorted(\n            {(alias.name, alias.asname) for alias in node.names},\n            key=lambda t: (t[0], t[1] is not None, t[1]),\n        )",
+            "        names = sorted({(alias.name, alias.asname) for alias in node.names})", "R4.i"),
+    Variant("is-blocking-calls-the-raw-evaluator", "FIRE", "core",
+            "            branch = node.body if literal_value(node.test) else node.orelse", "            branch = node.body if _literal_value(node.test) else node.orelse", "R4.a"),
     Variant("drop-first-validity-test", "FIRE", "processing",
             "    if not core.is_valid_python(new_source):\n        return source\n\n    new_source = _substitute_original_strings",
             "    new_source = _substitute_original_strings", "R4.h"),
@@ -723,7 +788,7 @@ VARIANTS = [
 
 META = {
     "design_ref": "DESIGN.md section 3, C04",
-    "technique": "exception-escape analysis around the evaluator, yield-shape typestate of rule generators, progress analysis of text recursion (path condition with ghost 'filled' facts), loop-variant table, signal-protocol contradiction rule, template closure",
+    "technique": "exception-escape analysis around the evaluator, yield-shape typestate of rule generators, progress analysis of text recursion (path condition with ghost 'filled' facts), loop-variant table, keyless ordering of optional components, signal-protocol contradiction rule, template closure",
     "level_text": ("Decides on the current source the structural mechanisms that keep the formatter from crashing or "
                    "looping: evaluator failures become the 'unknown' signal and are handled, results of the evaluator are "
                    "not used in raising operations without handler/type test, rule generators yield well-shaped rewrites, "
